@@ -545,6 +545,85 @@ theorem chiralFull_distinct (h : TupleHash) (single dbl : Nat → Bool) (mol : M
       isEmpty_nil, if_true]
     rfl
 
+/-! ## groups of odd size change nothing (root cause of known finding 3) -/
+
+theorem processBlock_odd {α β : Type} (test sign : α → Except PyErr Bool) (atomOf : α → Nat) (setKey : α → β)
+    (w : Weights) (st : BlockState β) (g : List α) (hg : g.length % 2 = 1) :
+    processBlock test sign atomOf setKey w st g = .ok st := by
+  unfold processBlock
+  simp [hg]
+
+theorem processBlocks_odd {α β : Type} (test sign : α → Except PyErr Bool) (atomOf : α → Nat) (setKey : α → β)
+    (w : Weights) : ∀ (gs : List (List α)) (st : BlockState β), (∀ g ∈ gs, g.length % 2 = 1) →
+      processBlocks test sign atomOf setKey w st gs = .ok st := by
+  intro gs
+  induction gs with
+  | nil => intro st _; rfl
+  | cons g tl ih =>
+    intro st hg
+    simp only [processBlocks, processBlock_odd test sign atomOf setKey w st g (hg g mem_cons_self)]
+    exact ih st (fun g' hg' => hg g' (mem_cons_of_mem _ hg'))
+
+theorem processGroup_odd (tetra : List (Nat × List Nat)) (labels : List (Nat × Bool)) (w : Weights)
+    (st : PassState) (g : List Nat) (hg : g.length % 2 = 1) : processGroup tetra labels w st g = .ok st := by
+  unfold processGroup
+  simp [hg]
+
+theorem processGroups_odd (tetra : List (Nat × List Nat)) (labels : List (Nat × Bool)) (w : Weights) :
+    ∀ (gs : List (List Nat)) (st : PassState), (∀ g ∈ gs, g.length % 2 = 1) →
+      processGroups tetra labels w st gs = .ok st := by
+  intro gs
+  induction gs with
+  | nil => intro st _; rfl
+  | cons g tl ih =>
+    intro st hg
+    simp only [processGroups, processGroup_odd tetra labels w st g (hg g mem_cons_self)]
+    exact ih st (fun g' hg' => hg g' (mem_cons_of_mem _ hg'))
+
+theorem passFull_odd (T : Tables) (w : Weights) (St : List Nat) (Sc : List (Nat × Nat)) (Sa : List Nat)
+    (keyedT : List (Nat × Int)) (keyedC : List (CTItem × Int)) (keyedA : List (Nat × Int))
+    (hkt : exMapM (keyOf w) St = .ok keyedT) (hdt : ∀ g ∈ groupsBy keyedT, g.length % 2 = 1)
+    (hkc : exMapM (ctKey w) Sc = .ok keyedC) (hdc : ∀ g ∈ groupsBy keyedC, g.length % 2 = 1)
+    (hka : exMapM (keyOf w) Sa = .ok keyedA) (hda : ∀ g ∈ groupsBy keyedA, g.length % 2 = 1) :
+    passFull T w St Sc Sa = .ok ⟨[], [], [], [], false⟩ := by
+  have h1 : pass T.tetra T.labels w St = .ok ⟨[], [], []⟩ := by
+    unfold pass
+    rw [groupsOf_eq_groupsBy w St keyedT hkt]
+    exact processGroups_odd _ _ _ _ _ hdt
+  have h2 : passCT T w Sc = .ok ⟨[], [], false⟩ := by
+    unfold passCT
+    rw [hkc]
+    exact processBlocks_odd _ _ _ _ _ _ _ hdc
+  have h3 : passAL T w Sa = .ok ⟨[], [], false⟩ := by
+    unfold passAL
+    rw [hka]
+    exact processBlocks_odd _ _ _ _ _ _ _ hda
+  unfold passFull
+  rw [h1, h2, h3]
+  rfl
+
+/-- if every group of labelled elements with one grouping key has an odd number of members, `_chiral_morgan = atoms_order` -/
+theorem chiralFull_odd (h : TupleHash) (single dbl : Nat → Bool) (mol : MolView) (labels : List (Nat × Bool))
+    (r0 : List (Nat × Nat)) (tet : List Nat) (T : Tables) (terminals : List (Nat × (Nat × Nat)))
+    (pairs : List (Nat × Nat))
+    (keyedT : List (Nat × Int)) (keyedC : List (CTItem × Int)) (keyedA : List (Nat × Int))
+    (hr : atomsOrder h mol = some r0) (ht : tetrahedrons mol = .ok tet)
+    (hT : tablesOf single dbl mol labels = .ok (T, terminals))
+    (hp : exMapM (getKey terminals) (stereoBondAtoms mol.bonds) = .ok pairs)
+    (hkt : exMapM (keyOf (toWeights r0)) ((labels.map (·.1)).filter tet.contains) = .ok keyedT)
+    (hdt : ∀ g ∈ groupsBy keyedT, g.length % 2 = 1)
+    (hkc : exMapM (ctKey (toWeights r0)) (dedupPairs pairs) = .ok keyedC) (hdc : ∀ g ∈ groupsBy keyedC, g.length % 2 = 1)
+    (hka : exMapM (keyOf (toWeights r0)) ((labels.map (·.1)).filter fun n => !tet.contains n) = .ok keyedA)
+    (hda : ∀ g ∈ groupsBy keyedA, g.length % 2 = 1) :
+    chiralFull h single dbl mol labels = .ranks r0 := by
+  unfold chiralFull
+  simp only [hr, ht, hT, hp]
+  split
+  · rfl
+  · simp only [diffFull, passFull_odd T (toWeights r0) _ _ _ keyedT keyedC keyedA hkt hdt hkc hdc hka hda,
+      isEmpty_nil, if_true]
+    rfl
+
 /-! ## the full model extends the tetrahedral-only model -/
 
 theorem passCT_nil (T : Tables) (w : Weights) : passCT T w [] = .ok ⟨[], [], false⟩ := rfl
